@@ -234,6 +234,11 @@ def ensure_facts(force=False):
                 if not os.path.exists(sj) or os.path.getmtime(sj) < os.path.getmtime(os.path.join(cur, f)):
                     exp.append(f)
         if exp:
+            # snapshots are hard links: never rewrite a fact file in place, always create a new inode
+            for f in exp:
+                sj = os.path.join(cur, f.replace(".expanded.rs", ".syn.jsonl"))
+                if os.path.exists(sj):
+                    os.remove(sj)
             r = subprocess.run([MECHSYN, cur] + exp, stdout=subprocess.PIPE, stderr=subprocess.PIPE, text=True)
             if r.returncode != 0:
                 raise InfraError("mechsyn failed: " + r.stderr[-3000:])
